@@ -9,6 +9,8 @@ import (
 	"go/token"
 	"go/types"
 	"math/big"
+	"os"
+	"runtime/debug"
 	"sort"
 	"strings"
 
@@ -39,7 +41,12 @@ type unsupported struct{ msg string }
 
 func (u unsupported) Error() string { return u.msg }
 
-func fail(format string, a ...interface{}) { panic(unsupported{fmt.Sprintf(format, a...)}) }
+func fail(format string, a ...interface{}) {
+	if os.Getenv("GOCV_TRACE") != "" {
+		debug.PrintStack()
+	}
+	panic(unsupported{fmt.Sprintf(format, a...)})
+}
 
 type Exec struct {
 	appendSum map[*ssa.Function]map[int]bool // per library function: the slice parameters it appends to (lazily computed)
